@@ -115,6 +115,8 @@ def match(pid, fail):
             and fail.get("explained_by_repaired_build") is True:
         # the case passes on a build in which exactly that defect is repaired (vf/rawwire.py)
         return "raw-swap-inner-part-overaligned"
+    if pid == "C02" and fail.get("large_array", 0) > 65536 and "decoded array length over 65536" in what:
+        return "python-decode-element-guard"
     if pid == "C10" and fail.get("check") == "sizer-range" and fail.get("exception") == "error" \
             and "format requires" in what:
         # struct.error from packing the counter: the array outgrew its sizer's range
